@@ -153,16 +153,28 @@ class LingUnit(Unit):
         self.records['Language'] = dict(FIELDS)
         self.classes['Language'] = 'Language'
 
+    # helpers without a declared signature: inlined at their call sites
+    def helper_def(self, rec, name):
+        if rec is None:
+            if name in self.fdefs and name not in self.funcs and name not in PRIMITIVE_FUNCS: return (self.fdefs[name], False)
+            return None
+        if rec == 'Language' and name in self.mdefs and (rec, name) not in self.methods and not name.startswith('__'):
+            return (self.mdefs[name], name in self.writing)
+        return None
+
+PRIMITIVE_FUNCS = {'_get_principal_territory_code', '_read_iso_codes', '_read_primary_languages', '_munch_language_name'}
+
 def generate(repo):
     _mangled.clear()
     u = LingUnit(repo)
     out = [HEADER]
     # which methods assign attributes (fixpoint over calls through self)
     writing = set()
-    for _ in range(len(METHODS) + 1):
-        new = {m for m, _ in METHODS if m in u.mdefs and m != '__init__' and writes_attrs(u.mdefs[m], writing)}
+    for _ in range(len(u.mdefs) + 1):
+        new = {m for m in u.mdefs if m != '__init__' and writes_attrs(u.mdefs[m], writing)}
         if new == writing: break
         writing = new
+    u.writing = writing
     for name, params in METHODS:
         if name not in u.mdefs:
             if name == '__ne__': continue
